@@ -20,7 +20,11 @@ MANIFEST = dict(
           "point and NaN included); the code before the repair could cycle forever "
           "(hill_climbing_asIs_before_fix_counterexample). The exit-logic model is tied to the code by replaying recorded per-"
           "iteration observations of real runs through the Lean driver (exit kind and iteration count must match). "
-          "The '<= 1000 support evaluations' clause for the unbounded loops, termination of MPR _refine_portal and of "
+          "MPR: refine_portal_continue_gap (what a continuing _refine_portal pass establishes), "
+          "mpr_portal_crossing_progress (the monotone ray-crossing parameter), refine_portal_terminates_conditional "
+          "(iteration bound conditional on a barycentric-weight hypothesis, see PARTIAL), "
+          "find_penetration_info_capped_bound (<= max_iterations+2 bodies for every observation record). "
+          "The '<= 1000 support evaluations' clause for the unbounded loops, unconditional termination of MPR _refine_portal and of "
           "the original GJK, and finiteness of outputs are explored by a counting proxy + watchdog over a corpus "
           "steered at degeneracy (identical, nested, touching, flat, needle, far, lattice)."),
     note=("exact-real exit logic; the 1000-evaluation bound for unbounded loops is explored, not proved (the proved "
@@ -38,7 +42,19 @@ PARTIAL = {
     "le_1000_support_evaluations_unbounded_loops": "for gjk_distance_jolt, gjk_intersection_jolt, gjk_distance_original "
                                                    "and mpr _refine_portal the bound 1000 is explored by the counting "
                                                    "proxy, not proved (jolt_*_terminates gives finiteness only)",
-    "refine_portal_terminates": "no measure found for mpr._refine_portal's while True loop; explored only",
+    "refine_portal_terminates": "mpr._refine_portal's while True loop: proved (a) refine_portal_continue_gap: a "
+                                "continuing pass has v1.dir <= -10*EPSILON, v4.dir > -10*EPSILON and v4 beyond all "
+                                "three portal vertices by >= mpr_tolerance+EPSILON along dir; (b) "
+                                "mpr_portal_crossing_progress: the parameter s at which the origin ray t*v0 crosses the "
+                                "portal plane is the monotone quantity, (s'-s)*(v0.n) >= l3*gap with l3 the barycentric "
+                                "weight of the new support point in the new crossing point; (c) "
+                                "refine_portal_terminates_conditional: k*lam*(tol+EPSILON) <= s0*D for every "
+                                "continuing pass k, CONDITIONAL on the hypothesis (not derived from the code) that "
+                                "l3 >= lam > 0 in every pass, that v0.dir_k < 0 and |v0.dir_k| <= D, and that the ray "
+                                "crosses the expanded portal triangle (what _expand_portal is meant to keep). REMAINS: "
+                                "an unconditional bound - the weight l3 can be arbitrarily small (then s only "
+                                "decreases weakly), the link from _expand_portal's vertex choice to the crossing "
+                                "hypothesis, and float rounding; explored by the counting proxy",
     "gjk_original_terminates": "original GJK main loop: explored only",
 }
 ASSUMPTIONS = ["the solver reports success iff the candidate squared length is below prev_v_len_sq (as "
